@@ -69,6 +69,10 @@ Definition allow_agree (u : universe) (x y : acct -> acct -> allowance) : bool :
 Definition coveredb (u : universe) (cfg : config) (t : tx) (rs : list routed) : bool :=
   forallb (fun d => amount_of (base_fee cfg (t_gas t)) d + additional cfg rs d <=? amount_of (t_fee t) d)
           (u_denoms u).
+(* what the mempool check can know: without the fees that handlers record themselves *)
+Definition covered_preb (u : universe) (cfg : config) (t : tx) (rs : list routed) : bool :=
+  forallb (fun d => amount_of (base_fee cfg (t_gas t)) d + additional_pre cfg rs d <=? amount_of (t_fee t) d)
+          (u_denoms u).
 
 (* the allowance of (granter, payer) after [fee] was spent from it (the spec of BasicAllowance) *)
 Definition spent_allow (ds : list denom) (v : allowance) (fee : coins) : allowance :=
@@ -91,7 +95,7 @@ Definition check_prop (u : universe) (cfg : config) (t : tx) (pre post : state) 
   let base := base_fee cfg (t_gas t) in
   (* the fee amounts themselves are nonnegative, so a sum exceeding the declared fee in any denom of
      the universe means the mempool check has to reject *)
-  tag (coveredb u cfg t (routed_top t) || negb admitted) "prop:uncovered fee admitted to the mempool" ++
+  tag (covered_preb u cfg t (routed_top t) || negb admitted) "prop:uncovered fee admitted to the mempool" ++
   if negb admitted then
     tag (bal_agree u (bal pre) (bal post)) "prop:rejected transaction was charged or moved coins" ++
     tag (seq_agree u (seqn pre) (seqn post)) "prop:rejected transaction changed a sequence" ++
@@ -99,6 +103,10 @@ Definition check_prop (u : universe) (cfg : config) (t : tx) (pre post : state) 
   else if ok then
     tag (forallb (fun d => amount_of base d <=? amount_of (t_fee t) d) (u_denoms u))
         "prop:base fee exceeds the declared fee" ++
+    tag (forallb (fun d => bal pre (fee_source t) d - bal post (fee_source t) d
+                           + share cfg (routed_all t) (fee_source t) d + msg_net (routed_all t) (fee_source t) d
+                           <=? amount_of (t_fee t) d) (u_denoms u) || N.eqb (fee_source t) collector)
+        "prop:payer debited more than the declared fee" ++
     tag (coveredb u cfg t (routed_all t)) "prop:succeeded although the additional fees are not covered by the declared fee" ++
     tag (forallb (fun d => bal post (fee_source t) d - bal pre (fee_source t) d
                            - share cfg (routed_all t) (fee_source t) d - msg_net (routed_all t) (fee_source t) d
